@@ -17,6 +17,7 @@
                         authority's meta and renaming it (pc StMetaRename).  The three known findings S13 / S13b /
                         S13c are exactly the schedules excluded by it (c18_witnesses_are_overlaps). *)
 From RipV Require Import Base.Prelude Model.Authority Proofs.AuthorityInv Proofs.AuthorityLive Proofs.AuthorityTake Proofs.AuthorityProofs.
+From RipV Require Import Model.AuthorityGrace Proofs.AuthorityGraceProofs.
 
 (* ---- exclusive create: no dead leftovers (no files at all), ANY number of contenders, ANY crash-free schedule *)
 Theorem c18_mutex_no_leftovers : forall (ps : list proc) (es : list event),
@@ -213,3 +214,103 @@ Theorem c18_corrupt_cleanup_needs_grace :
     holders (run false empty_init sched) = [1; 2] /\ holders (run true empty_init sched) = [1].
 Proof. exact corrupt_cleanup_needs_grace. Qed.
 Print Assumptions c18_corrupt_cleanup_needs_grace.
+
+(* ==== the corrupt-lock grace timer (Model/AuthorityGrace.v) ===========================================================
+   Above, "lock json invalid for > 1 s" is an adversarial answer constrained by `assume_grace`.  Here is where the answer
+   comes from: the loop variable lock_invalid_since, the clock being an input (pi_now / t_now of every poll).
+   * gtable            — which arms of a loop carry `lock_invalid_since = None;`, the grace period and the comparison; READ
+                         FROM THE SOURCE on every run (Gen/AuthSteps.v: gen_client_grace / gen_server_grace, obligations
+                         gen_client_grace_ok / gen_server_grace_ok = table_wf_client / table_wf_server).
+   * client_run g live cstate0 polls — ensure_local_authority_with_paths poll by poll (one pollin = clock, the file at the
+                         lock path with its ghost instance, meta.json, ping answer, "lock removed under the read");
+     po_act o = ACorrupt c — that poll called try_cleanup_corrupt_lock_file.
+   * invalid_window g polls j k — polls j..k ALL saw: no meta.json, a lock.json, unreadable; and the clock moved by more
+                         than the grace period between poll j and poll k.
+   * stable_polls      — the instance at the lock path does not change between two consecutive polls that both see it
+                         invalid (unless the first one cleaned it): a change of hands is OBSERVED.  The schedules excluded
+                         here need another contender's corrupt cleanup plus a new exclusive create between two polls: the
+                         open finding S13b's family. *)
+
+(* every poll of a client wait at which the corrupt cleanup fires closes a window of CONTINUOUS invalidity longer than the
+   grace period — of one and the same lock instance when changes of hands are observed.  Any table with the resets, any
+   liveness answers, any poll sequence, any clock. *)
+Theorem c18_client_grace_resets :
+  forall (g : gtable) (live : pid -> bool) (polls : list pollin),
+  table_wf_client g = true ->
+  forall (k : nat) (o : pollout) (c : bool),
+  nth_error (client_run g live cstate0 polls) k = Some o -> po_act o = ACorrupt c ->
+  exists j : nat, invalid_window g polls j k
+    /\ (stable_polls g live polls ->
+        forall i : nat, (j <= i <= k)%nat -> inst_of (nth i polls pdflt) = inst_of (nth k polls pdflt)).
+Proof. exact client_grace_resets. Qed.
+Print Assumptions c18_client_grace_resets.
+
+(* "a lock that became readable resets the timer" *)
+Theorem c18_client_readable_resets :
+  forall (g : gtable) (live : pid -> bool) (st : cstate) (p : pollin),
+  g_reset_readable g = true -> poll_seen p = SReadable ->
+  cs_since (po_state (client_poll g live st p)) = None.
+Proof. exact client_readable_resets. Qed.
+Print Assumptions c18_client_readable_resets.
+
+Example c18_client_grace_example :
+  map po_act (client_run full_table both_live cstate0 dead_half) = [ANone; ANone; ACorrupt true]
+  /\ invalid_window full_table dead_half 0 2 /\ table_wf_client full_table = true
+  /\ stable_polls full_table both_live dead_half.
+Proof. exact client_grace_example. Qed.
+
+(* the timer itself, for both loops: any observation stream *)
+Theorem c18_timer_fires_only_after_grace :
+  forall (g : gtable) (obs : list tobs),
+  g_reset_cleaned g = true -> obs_ok g obs ->
+  forall k : nat, (k < length obs)%nat -> fired (fst (timer_run g None obs)) k = true ->
+  exists j : nat, window g obs (fst (timer_run g None obs)) j k
+    /\ (stable obs (fst (timer_run g None obs)) ->
+        forall i : nat, (j <= i <= k)%nat -> t_inst (nth i obs dflt) = t_inst (nth k obs dflt)).
+Proof. exact timer_fires_only_after_grace. Qed.
+Print Assumptions c18_timer_fires_only_after_grace.
+
+Theorem c18_server_timer_fires_only_after_grace :
+  forall (g : gtable) (obs : list tobs),
+  table_wf_server g = true -> (forall o, In o obs -> t_seen o <> SMeta) ->
+  forall k : nat, (k < length obs)%nat -> fired (fst (timer_run g None obs)) k = true ->
+  exists j : nat, window g obs (fst (timer_run g None obs)) j k
+    /\ (stable obs (fst (timer_run g None obs)) ->
+        forall i : nat, (j <= i <= k)%nat -> t_inst (nth i obs dflt) = t_inst (nth k obs dflt)).
+Proof. exact server_timer_fires_only_after_grace. Qed.
+Print Assumptions c18_server_timer_fires_only_after_grace.
+
+(* WITHOUT the reset in the "lock readable" arm (seeded change C18-6) the statement is false: three phases inside one client
+   wait — starter 101's unwritten lock; its record readable for 1.5 s; the lock changes hands (observed) and the client
+   reads live starter 102's still-empty lock: cleaned at once, no window of invalidity ends at that poll.  Replayed on the
+   real client loop on a scripted clock (harness corpus three_phase_two_starters). *)
+Theorem c18_client_grace_resets_needs_readable_reset :
+  exists o : pollout,
+    nth_error (client_run no_readable_reset both_live cstate0 three_phase) 5 = Some o
+    /\ po_act o = ACorrupt true
+    /\ stable_polls no_readable_reset both_live three_phase
+    /\ (forall j : nat, ~ invalid_window no_readable_reset three_phase j 5)
+    /\ po_lock o = None
+    /\ both_live 102 = true.
+Proof. exact client_grace_resets_needs_readable_reset. Qed.
+Print Assumptions c18_client_grace_resets_needs_readable_reset.
+
+(* S25 (fixed, /repo 9a9eff8): WITHOUT the reset in the Ok(None) arm — the behaviour of both loops before the fix — the
+   statement is false as well: an unwritten lock, the lock gone under the client's read, then a live starter's fresh lock *)
+Theorem c18_client_grace_resets_needs_vanished_reset :
+  exists o : pollout,
+    nth_error (client_run no_vanished_reset both_live cstate0 vanished_witness) 2 = Some o
+    /\ po_act o = ACorrupt true
+    /\ stable_polls no_vanished_reset both_live vanished_witness
+    /\ (forall j : nat, ~ invalid_window no_vanished_reset vanished_witness j 2)
+    /\ po_lock o = None.
+Proof. exact client_grace_resets_needs_vanished_reset. Qed.
+Print Assumptions c18_client_grace_resets_needs_vanished_reset.
+
+Theorem c18_server_timer_needs_absent_reset :
+  fst (timer_run server_table_unfixed None server_vanished_obs) = [false; false; true]
+  /\ fst (timer_run full_table None server_vanished_obs) = [false; false; false]
+  /\ (forall j : nat, ~ window server_table_unfixed server_vanished_obs
+                         (fst (timer_run server_table_unfixed None server_vanished_obs)) j 2).
+Proof. exact server_timer_needs_absent_reset. Qed.
+Print Assumptions c18_server_timer_needs_absent_reset.
